@@ -905,7 +905,6 @@ func positiveControlGlobalWrite(c *core.Ctx) {
 	c.Check("R2", "positive control: a read of package-level state is not reported", "fixtures/globalwrite/fx.go", !hits["readonly"] && !hits["looked"], "")
 }
 
-
 // sortsParam is set by checkC14: does function fn sort its i-th parameter in
 // place (a sort.* / slices.Sort* call on it, directly or one call deeper)?
 var sortsParam func(fn *types.Func, i int) bool
@@ -949,7 +948,6 @@ func makeSortsParam(p *load.Prog) func(fn *types.Func, i int) bool {
 	}
 	return func(fn *types.Func, i int) bool { return rec(fn, i, 0) }
 }
-
 
 // mapOrderFold: R5. R1 classifies every map range syntactically; a loop that
 // fills a table from a computation that reads the same table (a two-pass
@@ -998,7 +996,6 @@ func mapOrderFold(c *core.Ctx, p *load.Prog) {
 	c.Count("map_order_folds", n)
 	c.Floor("map_order_folds", 2)
 }
-
 
 // sharedMutableGlobals: R2c. R2 looks for writes that name a package-level
 // variable. A package-level variable that holds (a pointer to) a struct of the
@@ -1152,7 +1149,6 @@ func reachableFromEntry(info *types.Info, tpkg *types.Package, decls map[*types.
 	return false
 }
 
-
 // localWorkList: the slice named sl is a local variable of fd whose every use
 // is len(sl), sl[i], sl[a:b], sl = append(sl, …) or sl = sl[…].
 func localWorkList(info *types.Info, fd *ast.FuncDecl, sl ast.Expr) bool {
@@ -1210,7 +1206,6 @@ func localWorkList(info *types.Info, fd *ast.FuncDecl, sl ast.Expr) bool {
 	})
 	return ok
 }
-
 
 // resultOnlyFoldedIntoSets is set by checkC14: the local slice sl of fd is
 // only appended to and returned, fd is not exported, and every call of fd in
